@@ -296,7 +296,8 @@ def discharge_parallel(reps, timeout_ms=10000, jobs=16):
             v, b, dt, inp, m = res[j]
             first = index[j] == (ri, oi)
             d = {'name': ob.name, 'verdict': v, 'backend': b, 't': round(dt, 4) if first else 0.0, 'line': ob.line,
-                 'kind': ob.kind, 'info': ob.info, 'path': list(ob.path or ())}
+                 'kind': ob.kind, 'info': ob.info, 'path': list(ob.path or ()),
+                 'labels': [[a, b] for a, b in (ob.labels or [])]}
             if inp is not None:
                 d['inputs'] = inp
             if m is not None:
